@@ -23,6 +23,10 @@ TIERS = {  # mode: (programs, steps) per tier
 
 def kv_main(ctx, mode, sig_fn=None, extra=None, need_comp=("mem", "l0", "nl0")):
     nprog, nsteps = TIERS[mode][ctx.tier]
+    if mode == "c02":
+        from vlib import tlc_mc
+        tlc_mc(ctx, "DbIter.tla", "DbIter_quick.cfg" if ctx.quick else "DbIter_thorough.cfg", timeout=1800,
+               label="DbIter.tla (dbIter direction machine transcribed) refines the cursor over the live pairs, all entry streams")
     run_kv(ctx, mode, nprog, nsteps, sig_fn=sig_fn, need_comp=need_comp)
     cov = mc_coverage(ctx, extra)
     return finish(ctx, "model_checking", cov, ASSUME)
